@@ -271,7 +271,53 @@ def cli_table():
     return "Definition cli_levels : list (list pstr * pstr) := %s.\n" % L.lst(rows, "list pstr * pstr")
 
 
+def issue_fields():
+    """match_types of Issue.__eq__, keys written by as_dict, keys read by from_dict (and the attribute each maps to)."""
+    tree = ast.parse(open(os.path.join(REPO, "bandit/core/issue.py")).read())
+    cls = [n for n in tree.body if isinstance(n, ast.ClassDef) and n.name == "Issue"][0]
+    fn = {f.name: f for f in cls.body if isinstance(f, ast.FunctionDef)}
+    mt = None
+    for n in ast.walk(fn["__eq__"]):
+        if isinstance(n, ast.Assign) and isinstance(n.targets[0], ast.Name) and n.targets[0].id == "match_types":
+            mt = [e.value for e in n.value.elts]
+    if mt is None:
+        raise ValueError("match_types not found")
+    # the comparison must be all(getattr(self, f) == getattr(other, f) for f in match_types)
+    ret = [n for n in ast.walk(fn["__eq__"]) if isinstance(n, ast.Return)][0]
+    if not (isinstance(ret.value, ast.Call) and dotted(ret.value.func) == "all"):
+        raise ValueError("__eq__ is not all(...)")
+    asd = {}
+    for n in ast.walk(fn["as_dict"]):
+        if isinstance(n, ast.Dict):
+            for k, v in zip(n.keys, n.values):
+                if isinstance(k, ast.Constant):
+                    src = dotted(v)
+                    if isinstance(v, ast.Call):
+                        src = dotted(v.func)
+                        while src.endswith(("decode()", "encode()")) or src.endswith((".decode", ".encode")):
+                            src = src.rsplit(".", 1)[0].rstrip("()")
+                    asd[k.value] = src.replace("self.", "")
+            break
+    frd = {}
+    for n in ast.walk(fn["from_dict"]):
+        if isinstance(n, ast.Assign) and isinstance(n.targets[0], ast.Attribute) and dotted(n.targets[0].value) == "self":
+            attr = n.targets[0].attr
+            for x in ast.walk(n.value):
+                if isinstance(x, ast.Subscript) and dotted(x.value) == "data" and isinstance(x.slice, ast.Constant):
+                    frd[x.slice.value] = attr
+                if isinstance(x, ast.Call) and dotted(x.func) == "data.get" and x.args and isinstance(x.args[0], ast.Constant):
+                    frd[x.args[0].value] = attr
+    body = "Definition MATCH_TYPES : list pstr := %s.\n" % L.lst([L.pstr(x) for x in mt], "pstr")
+    body += "Definition AS_DICT_KEYS : list (pstr * pstr) := %s.\n" % L.lst([L.pair(L.pstr(k), L.pstr(v)) for k, v in asd.items()], "pstr * pstr")
+    body += "Definition FROM_DICT_KEYS : list (pstr * pstr) := %s.\n" % L.lst([L.pair(L.pstr(k), L.pstr(v)) for k, v in frd.items()], "pstr * pstr")
+    return body
+
+
 def main():
+    try:
+        write("IssueFields.v", issue_fields())
+    except Exception as e:
+        stub("IssueFields.v", e)
     try:
         write("Ladders.v", ladders() + exn_matrix())
     except Exception as e:
